@@ -1,0 +1,18 @@
+//go:build verif
+
+// Hooks for the deterministic-simulation harness in /verif. This file is only
+// compiled with -tags verif.
+
+package parse
+
+// VerifYieldHook, when non-nil, is called before every mutex acquisition of
+// parse.go (the call sites are inserted at check time by
+// /verif/tools/instrument.py); the harness uses it to park the calling goroutine
+// so that another one can run in between. With the hook nil it is a no-op.
+var VerifYieldHook func(site string)
+
+func verifYield(site string) {
+	if VerifYieldHook != nil {
+		VerifYieldHook(site)
+	}
+}
